@@ -44,10 +44,18 @@ CHECKS['C02'] = dict(
    text="Deductive, per function, unbounded in list lengths: (1) the real _consolidate_allocation_requests (+ copy_arr_if_needed) is proved to return one entry per (provider, class) whose amount is the ghost sum of the input amounts with that key, every input key placed, the anchor kept, and -- frame -- no AllocationRequestResource that existed before the call modified (two nested inductive invariants with ghost sums and first-occurrence functions); (2) exceeds_capacity is proved to return True iff some resource has used + amount > capacity or amount > max_unit of its summary entry; (3) _build_provider_summaries is proved to record capacity int((total - reserved) * allocation_ratio), used (NULL -> 0), max_unit, class name and the provider's uuid / parent / root for every usage row; (4) the claim lemma (z3, with witness-style divisibility lemmas): amounts admitted by the real _capacity_check_clause object (translated term by term), added up and not rejected by exceeds_capacity, satisfy the acceptance condition of _check_capacity_exceeded (its contract, proved against its body by C01). Always-on bounded stand-in: claim every returned candidate on the real stack and compare every summary with the stored state.",
    note="A-sql: the rows returned by get_usages_by_provider_trees / _provider_ids_from_root_ids / the per-group candidate SELECTs are assumed to be the stored ones (bounded stand-in only); mappings, 'one provider per suffixed group' and the establishment of consolidate's precondition (multi_group_rcs) in _get_by_requests / _merge_candidates are covered by the bounded stand-in only; JSON serialisation of the candidates by C14's response-key obligations and the stand-in.",
    design="4/C02")
+CHECKS['C08'] = dict(
+   text="Deductive, per writer: every statement sequence that removes a row others may refer to is proved (body proof over the ghost tables) to refuse while it is referred to and to change nothing when it refuses -- _delete_inventory_from_provider (in-use SELECT by relational spec, then DELETE: exactly the named rows go, no allocation row loses its inventory), ResourceProvider.destroy / _delete (allocations, children; its inventories, trait and aggregate associations go with it), ResourceClass.destroy (inventory of that class, standard class), Trait.destroy (associated, standard trait); every sequence that adds a referring row runs in one writer transaction ending with the provider's generation compare-and-swap, which fails unless the provider row exists (six mutator body proofs); allocation rows are written only after _check_capacity_exceeded found the inventory row of that class on that provider (its body proof and that of _set_allocations); the real handlers map each refusal to 409 / 400 (standard names). Always-on bounded stand-in: directed and random histories on the real stack with every stored reference resolved in the raw tables after every request.",
+   note="Composition over whole histories is by the per-writer obligations (each preserves the referential invariant) -- the invariant itself is not carried through the handler-level exploration; 'recorded consumer' is C12's obligation; reshaper reuses _set_inventory / _set_allocations inside one transaction (C04 one-transaction obligation); interleavings (stale per-request caches) belong to C07.",
+   design="4/C08")
 CHECKS['C09'] = dict(
    text="Deductive over the ghost resource_providers table, with ORM idioms given the semantics of the statements they emit: the real ResourceProvider.create/_create_in_db, save/_update_in_db and destroy/_delete are executed symbolically from an arbitrary table satisfying the forest invariant (ranked parent links, root pointer shared with the parent, parentless rows their own root, root rows exist); each is proved to re-establish it -- for a move with the explicit new rank function depth - depth(moved) + depth(new parent) + 1 on the subtree -- to change no other provider's parent, to report the root that the parent links lead to, to refuse loops, missing parents, providers with children or allocations and, without allow_reparenting, any change of an existing parent, and to leave the database untouched when it raises. The subtree loop of _update_in_db carries an inductive invariant. C14 proves allow_reparenting == (microversion >= 1.37). Always-on bounded stand-in: directed and random request histories on the real stack with the forest re-derived from raw rows and a reference model of the hierarchy.",
    note="A-subtree: ResourceProvider.get_subtree is used through an assumed contract (descendant set of the entry table), its recursive body is exercised by the bounded histories only; A-orm / A-sql: ORM idioms and the two SELECTs (text pinned) by relational spec; that the row a root pointer names survives DELETE is the foreign key's guarantee (A-key); sequential histories only -- interleavings belong to C07.",
    design="4/C09")
+CHECKS['C19'] = dict(
+   text="Deductive: (1) regular-language inclusion decided by z3/cvc5 on the real schema objects -- every string accepted by the four name schemas under python's re.search semantics of ^ $ \\Z (the patterns are parsed with python's own sre parser and translated) is CUSTOM_[A-Z0-9_]* of at most 255 characters; (2) data flow through the real handlers of PUT /traits/{name}, POST /resource_classes and PUT /resource_classes/{name} (both overloads): the very string handed to Trait.create / ResourceClass.create / ResourceClass.save was validated against one of those schemas; (3) body proofs over the ghost tables with ORM idioms as statements: ResourceClass.create (retry loop with an inductive invariant, _get_next_id, explicit-key insert, unique name) stores the name under a fresh id >= 10000 and never duplicates a name; ResourceClass.destroy / save and Trait.destroy refuse standard entries before any write, refuse entries in use, and change nothing when they raise. Always-on bounded stand-in: start-up synchronisation from five table states (twice each), 28 name probes x 3 routes + renames, id histories.",
+   note="Start-up synchronisation (_trait_sync / _resource_classes_sync) is covered by the bounded stand-in only (label: bounded); A-str: strings are uninterpreted outside the language lemmas, str.startswith is a functional predicate; 'standard class <=> id < 10000' rests on sync assigning list indices (< 10000, checked natively) and create() on ids >= 10000 (proved).",
+   design="4/C19")
 CHECKS['C20'] = dict(
    text="Deductive, unbounded in the lists: the real RequestWideSearchContext.limit_results is proved against the property's postcondition (count == min(N, M); every returned request is one of the inputs, pairwise distinct; without randomisation the result is the prefix of the input and random is never called; without an effective limit the result is a permutation; every provider named by a kept request keeps a summary; summaries come from the input) with three inductive loop invariants; AllocationCandidates._get_by_requests is proved against the callee contracts to apply limit_results to exactly EXCL(merged) -- the complete filtered candidate list -- so the limited answer is selected from the unlimited one. Always-on bounded stand-in: real stack, 4 topologies x 8 queries x limits 1..M+1 x randomisation off/on.",
    note="A-lib: random.sample / random.shuffle by their documented behaviour; exclude_nested_providers and _merge_candidates are uninterpreted list functions here (their own behaviour belongs to C02/C03); 'identical request on unchanged state returns the identical list' additionally rests on the determinism of the SQL result order (A-order), which only the bounded stand-in exercises.",
